@@ -11,31 +11,32 @@
 
     [C07_sat_eq_random_partial]: that equivalence on the intersection of the
     two proved fragments, [in_f1 fb = true] (Encode/CodeSem.v) and
-    [frag0 fb = true] (Random/Frag.v): one crossing of non-derived factors with
-    unit weights, further non-derived factors, no user constraint, any number
-    of trials.  Stated directly between the two models: the left side is the
+    [frag1 fb = true] (Random/Frag.v, see Properties/C04.v; it contains the earlier
+    [frag0]): one crossing of non-derived factors with unit weights, further
+    non-derived factors, exclusions, the user constraints both fragments admit
+    (AtMostKInARow, ExactlyK, Exclude, Pin), any number of trials.  Stated directly between the two models: the left side is the
     model of the SAT pipeline (models of [full_cnf] of the compiled request,
     read on the trial variables by [onehot]), the right side the model of
     RandomGen (keys, decoded candidates, acceptance).  Both sides equal
     [{q | valid_b (code_sem fb) q = true}] (C01_sound / C02_complete and
-    f0_accept_sound / f0_accept_complete).  Missing for the full statement:
-    derived factors, user constraints and exclusions on the RandomGen side
-    (outside frag0), complex windows / Nest / Sequential / LatinSquare on the
+    f1_accept_sound / f1_accept_complete).  Missing for the full statement:
+    derived factors, weights, preambles and several crossings on the RandomGen side
+    (outside frag1), complex windows / Nest / Sequential / LatinSquare on the
     SAT side (outside F1); there C07 is decided by the differential search. *)
 From Coq Require Import ZArith List Bool.
 From SP Require Import Base.Sat Design.Flat Design.Sem.
 From SP Require Import Encode.Compile Encode.CodeSem Encode.LayoutF1 Encode.F1Sem Encode.SatRandom.
-From SP Require Import Random.Enum Random.Frag Random.FragSem.
+From SP Require Import Random.Enum Random.Frag Random.FragSem Random.SatRandom1 Random.Frag0Example.
 
 Theorem C07_sat_eq_random_partial :
   forall (fb : flat) (b : backend) (ok : bool) (n' : Z) (final : cnf),
-    in_f1 fb = true -> frag0 fb = true -> (0 < T fb)%nat -> fl_errors_fail fb = false ->
+    in_f1 fb = true -> frag1 fb = true -> (0 < T fb)%nat -> fl_errors_fail fb = false ->
     compile fb = COk b -> full_cnf b = (ok, n', final) ->
     forall q : tseq,
       (exists t, sat t final = true /\ onehot fb t q) <->
       (exists k cand, In k (keys_of fb) /\ decode_key fb k = Some cand /\ accepts fb cand = true /\
                       tseq_of_run fb cand = q).
-Proof. exact sat_eq_random. Qed.
+Proof. exact sat_eq_random1. Qed.
 Print Assumptions C07_sat_eq_random_partial.
 
 (** the two fragment predicates are jointly satisfiable: a 2 x 3 crossing on 6
@@ -44,3 +45,9 @@ Example C07_example :
   in_f1 ex_fb = true /\ frag0 ex_fb = true /\ (0 < T ex_fb)%nat /\ fl_errors_fail ex_fb = false /\
   (exists b, compile ex_fb = COk b) /\ length (keys_of ex_fb) = 720%nat.
 Proof. exact sat_eq_random_example. Qed.
+(** jointly satisfiable outside frag0: exclusions, AtMostKInARow, Pin and a leftover round *)
+Example C07_example_rejection :
+  in_f1 ex1_flat = true /\ frag1 ex1_flat = true /\ frag0 ex1_flat = false /\ (0 < T ex1_flat)%nat /\
+  fl_errors_fail ex1_flat = false /\ (exists b, compile ex1_flat = COk b) /\
+  length (keys_of ex1_flat) = 32%nat /\ length (accepted_keys ex1_flat) = 12%nat.
+Proof. exact sat_eq_random1_example. Qed.
